@@ -102,7 +102,7 @@ def render(prog, minimal=False):
     for f in prog["functions"]:
         ex = "export " if f.get("export", True) else ""
         ps = ", ".join(f"{rtype(t)} {n}" for t, n in f["params"])
-        out.append(f"{ex}function {f['name']}({ps}) -> {f['ret']} {{\n" + "\n".join(rstmt(s, minimal) for s in f["body"]) + "\n}")
+        out.append(f"{ex}function {f['name']}({ps}) -> {rtype(f['ret'])} {{\n" + "\n".join(rstmt(s, minimal) for s in f["body"]) + "\n}")
     return "\n".join(out)
 
 
@@ -276,6 +276,9 @@ class Interp:
         return v != 0
 
     def store(self, lhs, v, env, env_t):
+        import copy
+        if isinstance(v, (list, dict)):
+            v = copy.deepcopy(v)          # assignment copies the value: arrays and structs are values, two variables never share one
         k = lhs[0]
         if k == "var":
             self.lookup(lhs[1], env)[lhs[1]] = v
@@ -302,7 +305,9 @@ class Interp:
             env_t[s[2]] = s[1]
             env[s[2]] = zero(s[1], self.structs)
             if s[3] is not None:
-                env[s[2]] = _val(self.ev(s[3], env, env_t), s[1] if s[1] in ("int", "float") else None)
+                import copy
+                iv = self.ev(s[3], env, env_t)
+                env[s[2]] = copy.deepcopy(iv) if isinstance(iv, (list, dict)) else _val(iv, s[1] if s[1] in ("int", "float") else None)
         elif k == "assign":
             tl = self.etype(s[1], env_t)
             if s[2] == "=":
@@ -359,7 +364,9 @@ class Interp:
             raise KeyError(k)
 
     def call(self, f, args):
-        env = {n: v for (t, n), v in zip(f["params"], args)}
+        import copy
+        # arguments are passed by value (C03): the callee works on its own copy of an array / struct argument
+        env = {n: (copy.deepcopy(v) if isinstance(v, (list, dict)) else v) for (t, n), v in zip(f["params"], args)}
         env_t = {n: t for t, n in f["params"]}
         try:
             self.run(f["body"], env, env_t)
